@@ -212,6 +212,18 @@ theorem C04_merge_of_merges {α} (groups : List (List (Segment α)))
       simp only at hd ht
       rw [hd, ht]
 
+/-- `IndexMerger::open` keeps only the sources that still hold a live document as readers
+(`mergeReaders`). Merging the readers gives exactly the logical content of ALL the sources:
+the dropped ones contribute no document and no live posting, and a term that occurs only in
+dropped sources disappears on both sides. -/
+theorem C04_readers_drop_empty_sources {α} (segs : List (Segment α))
+    (hlen : ∀ s ∈ segs, s.docs.length = s.alive.length)
+    (hpost : ∀ s ∈ segs, ∀ t ∈ s.terms, postingsOk s.alive.length t.2 = true) :
+    dump (mergeModel (mergeReaders segs)) = mergeSpec segs := by
+  rw [C04_merge_translation (mergeReaders segs)
+    (fun s hs => hlen s (List.mem_filter.1 hs).1) (fun s hs => hpost s (List.mem_filter.1 hs).1)]
+  exact mergeSpec_filter_hasLive segs hlen hpost
+
 /-- per term: the live posting list of every key over the merged groups is the one over all
 original sources -/
 theorem C04_merge_of_merges_postings {α} (groups : List (List (Segment α)))
@@ -308,6 +320,9 @@ example : dump (mergeModel ([exSegs, exSegs.take 1].map mergeModel)) = mergeSpec
   C04_merge_of_merges [exSegs, exSegs.take 1] (by decide) (by decide)
 example : dump (mergeModel ([exSegs, exSegs.take 1].map mergeModel)) = mergeSpec ([exSegs, exSegs.take 1].map mergeModel) :=
   C04_merge_translation_iterated [exSegs, exSegs.take 1] (by decide) (by decide)
+example : (mergeReaders exSegs).length = 2 := by decide
+example : dump (mergeModel (mergeReaders exSegs)) = mergeSpec exSegs :=
+  C04_readers_drop_empty_sources exSegs (by decide) (by decide)
 example : dump (mergeModel exSegs) = mergeSpec exSegs :=
   C04_merge_translation exSegs (by decide) (by decide)
 example : mergedStore (fun i => i == 2) 0 exSegs = [7, 9, 4, 5] := by decide
